@@ -47,8 +47,8 @@ func DriveOracle(out io.Writer, seed int64, runs, length int) (map[string]int, e
 				}
 			}
 			var e M
-			if r.Intn(25) == 0 {
-				e = M{"type": "SetClient", "signer": pick(r, []string{"e1", "e1", "x"}), "client": pick(r, []string{"cl1", "", "other"})}
+			if r.Intn(20) == 0 {
+				e = M{"type": "SetClient", "signer": pick(r, []string{"e1", "e1", "x"}), "client": pick(r, []string{"cl1", "", "other"}), "oracle": r.Intn(4) != 0}
 			} else if len(host) == 0 || r.Intn(6) == 0 {
 				set := M{}
 				if len(host) > 1 && r.Intn(4) == 0 { // validators leave the L1 set, everybody else's power is unchanged
